@@ -17,7 +17,7 @@ open Expr
 
 /-! ## Stage B: per-bin closed forms as `Expr` terms -/
 
-private def v (i : Nat) : Expr := .var i
+@[reducible] def v (i : Nat) : Expr := .var i
 
 /-- RQ forward value. env: 0 x, 1 xk, 2 w, 3 yk, 4 h, 5 d0, 6 d1  (s = h/w) -/
 def rqFwdE : Expr :=
